@@ -357,24 +357,24 @@ class C07(base.Engine):
     }
 
     def execute(self, case):
+        """adaptive: each plan step is turned into ops using the model's current texts
+        (positions depend on what earlier refactorings did to the files).  Consecutive
+        steps run in ONE long-lived subject (so that state left in the process by an
+        earlier Script - unsaved buffers, caches - is there for the next refactoring);
+        'host_restart' between steps continues in a new interpreter on the same disk and
+        pickle cache."""
         driver.begin_case(case)
-        """adaptive: each plan step is turned into ops using the model's current
-        texts; the whole history still runs in ONE long-lived subject per host
-        segment (ops are appended and the subject re-run from `start`)"""
         model = Model(case['init'])
-        original = dict(model.files)
-        ops = [{'op': 'knob', 'name': k, 'value': v} for k, v in sorted(case['knobs'].items())]
-        # Build the complete op list first with a dry model?  Positions depend on
-        # results, so run step by step: every step = its own subject segment
-        # boundary would lose in-process state; instead we exploit that the
-        # model is exact when the checks pass: predict the texts with the model
-        # and verify the prediction through I2.
         root = driver.new_root('c07')
         stats = collections.Counter()
         problems = []
         events_all = []
+        base_spec = {'init': case['init'], 'inv': ['snap', 'sentinel', 'host'],
+                     'ops': [{'op': 'knob', 'name': k, 'value': v} for k, v in sorted(case['knobs'].items())]}
+        sub = None
+        seg_n = 0
+        clock_ops = []      # advance ops executed so far (process-local clock is rebuilt after a restart)
         try:
-            start = 0
             sid_n = 0
             for step in case['plan']:
                 kind, path, needle, off, extra = step['ref']
@@ -382,6 +382,12 @@ class C07(base.Engine):
                 if text is None or needle not in text:
                     stats['skipped_steps'] += 1
                     continue
+                if sub is None:
+                    spec = dict(base_spec, ops=base_spec['ops'] + clock_ops, start=0)
+                    if seg_n > 0:
+                        spec['init'] = []
+                    sub = driver.InteractiveSubject(spec, root, hashseed=case.get('hashseed', 0), seg=str(seg_n))
+                    seg_n += 1
                 sid_n += 1
                 sid = 's%d' % sid_n
                 code = None if step['from_disk'] else text
@@ -416,20 +422,17 @@ class C07(base.Engine):
                 elif b == 'query':
                     seg.append({'op': 'query', 'code': None, 'path': 'main.py', 'project': {'path': '.'},
                                 'probes': [{'m': 'get_names', 'light': True}, {'m': 'infer', 'l': 13, 'c': 1}]})
-                restart = b == 'host_restart'
-                ops += seg
-                c2 = {'init': case['init'], 'ops': ops, 'hashseed': case.get('hashseed', 0)}
-                spec = {'init': case['init'], 'ops': ops, 'start': start, 'end': len(ops), 'inv': ['snap', 'sentinel', 'host']}
-                r = driver.run_subject(spec, root, hashseed=case.get('hashseed', 0), timeout=110, seg=str(sid_n))
-                # NOTE: each step runs in a fresh interpreter on the same disk and
-                # pickle cache (host restart between steps is the norm here);
-                # steps within one segment share the process.
-                if not r.complete or len(r.events) != len(ops) - start:
-                    return {'verdict': 'harness_error', 'detail': {'rc': r.rc, 'to': r.timed_out,
-                                                                   'stderr': r.stderr[-1500:], 'n': len(r.events)}}
-                events_all += r.events
                 desc = None
-                for op, ev in zip(ops[start:], r.events):
+                for op in seg:
+                    ev = sub.step(op)
+                    if ev is None:
+                        err = sub.close()
+                        sub = None
+                        return {'verdict': 'harness_error', 'detail': {'why': 'interactive subject failed',
+                                                                       'stderr': err[-1500:]}}
+                    events_all.append(ev)
+                    if op['op'] == 'advance':
+                        clock_ops.append(op)
                     stats['ops'] += 1
                     res = ev.get('res')
                     if ev.get('inv_bad'):
@@ -448,7 +451,8 @@ class C07(base.Engine):
                             if res.get('diff_again') != res.get('diff'):
                                 problems.append(('get_diff_not_repeatable', {'op': ev['i'], 'kind': kind, 'args': args}))
                             for pr in check_diff(res, originals):
-                                problems.append(('I3:' + pr[0], {'op': ev['i'], 'kind': kind, 'args': args, 'why': pr[1]}))
+                                problems.append(('I3:' + pr[0], {'op': ev['i'], 'kind': kind, 'args': args,
+                                                                 'path': path, 'why': pr[1]}))
                         else:
                             stats['refused:%s' % (res[1] if isinstance(res, list) and len(res) > 1 else res)] += 1
                     elif op['op'] == 'refactor_inspect' and desc is not None:
@@ -470,10 +474,14 @@ class C07(base.Engine):
                     if d:
                         which = 'I2:after_apply' if op['op'] == 'refactor_apply' else 'I1:changed_before_apply'
                         problems.append((which + ':' + op['op'], {'op': ev['i'], 'kind': kind, 'args': args, 'diff': d[:5]}))
-                        # resync so that one slip is reported once
                         return self._done(problems, stats, events_all, case)
-                start = len(ops)
+                if b == 'host_restart':
+                    sub.close()
+                    sub = None
+                    stats['host_restarts'] += 1
         finally:
+            if sub is not None:
+                sub.close()
             driver.rm_root(root)
         return self._done(problems, stats, events_all, case)
 
@@ -544,7 +552,8 @@ class C07(base.Engine):
             'refused': {k[8:]: v for k, v in tot.items() if k.startswith('refused:')},
             'apply_failed': {k[13:]: v for k, v in tot.items() if k.startswith('apply_failed:')},
             'skipped_steps': tot['skipped_steps'],
-            'faults_fired_by_kind': {'host_restart_between_steps': 'every step boundary'},
+            'host_restarts': tot['host_restarts'],
+            'faults_fired_by_kind': {'host_restart': tot['host_restarts']},
         }
 
 
